@@ -22,13 +22,25 @@
 #include <setjmp.h>
 #include "tbl.h"
 
-static jmp_buf hang_jmp;
+#include <signal.h>
+#include <unistd.h>
+static sigjmp_buf hang_jmp;
 static int hang_site = -1;
 static void
 tick_over(int site) {
 	hang_site = site;
 	_lou_verif_tick_budget = 0;
-	longjmp(hang_jmp, 1);
+	alarm(0);
+	siglongjmp(hang_jmp, 1);
+}
+/* wall-clock watchdog for loops that have no step counter: site 99 */
+#define WATCHDOG_SECONDS 6
+static void
+on_alarm(int sig) {
+	(void)sig;
+	hang_site = 99;
+	_lou_verif_tick_budget = 0;
+	siglongjmp(hang_jmp, 1);
 }
 
 static int raw_n = -1, raw_dir, raw_inlen, raw_outlen;
@@ -251,7 +263,9 @@ main(void) {
 			_lou_verif_tick_total = 0;
 			_lou_verif_tick_budget = budget;
 			hang_site = -1;
-			if (setjmp(hang_jmp) == 0) {
+			signal(SIGALRM, on_alarm);
+			if (sigsetjmp(hang_jmp, 1) == 0) {
+				alarm(WATCHDOG_SECONDS);
 				switch (fn) {
 				case 'T':
 					ret = lou_translate(tl, in, &il, out, &ol, typeform, spacing, outputPos, inputPos, curp, mode);
@@ -296,6 +310,7 @@ main(void) {
 			} else {
 				hung = 1;
 			}
+			alarm(0);
 			_lou_verif_tick_budget = 0;
 			printf("R %d %d %d %d |", ret, il, ol, curp ? cur : -2);
 			for (k = 0; k < outlen; k++) printf(" %x", out[k]);
